@@ -184,18 +184,16 @@ int __wrap_pthread_mutex_unlock(pthread_mutex_t *m) {
 // ---- allocation accounting (XCM objects only: the harness allocates through operator new)
 static void track_add(void *p, size_t n) {
     if (!p || !SIM || !K || !K->track_allocs) return;
-    K->live_allocs.insert(p);
-    K->alloc_size[p] = n;
+    K->allocs[p] = n;
     K->live_bytes += n;
     if (K->live_bytes > K->peak_bytes) K->peak_bytes = K->live_bytes;
 }
 static void track_del(void *p) {
     if (!p || !G || !K || !K->track_allocs) return;
-    auto i = K->live_allocs.find(p);
-    if (i == K->live_allocs.end()) return;
-    K->live_allocs.erase(i);
-    auto s = K->alloc_size.find(p);
-    if (s != K->alloc_size.end()) { K->live_bytes -= s->second; K->alloc_size.erase(s); }
+    auto i = K->allocs.find(p);
+    if (i == K->allocs.end()) return;
+    K->live_bytes -= i->second;
+    K->allocs.erase(i);
 }
 void *__wrap_malloc(size_t n) { void *p = __real_malloc(n); track_add(p, n); return p; }
 void *__wrap_calloc(size_t a, size_t b) { void *p = __real_calloc(a, b); track_add(p, a * b); return p; }
